@@ -17,7 +17,7 @@ from . import common
 from ECAgent.Core import Model, Agent, Component, System
 from ECAgent.Collectors import Collector, AgentCollector
 import numpy as np
-from ECAgent.Environments import GridWorld, SpaceWorld, PositionComponent, discrete_grid_pos_to_id
+from ECAgent.Environments import GridWorld, LineWorld, SpaceWorld, PositionComponent, discrete_grid_pos_to_id
 
 
 RASTER = np.arange(20, dtype=np.float64) * 1.5 + 10.0        # kept by the program, handed to every model
@@ -65,7 +65,15 @@ class Script(System):
                 if cells:
                     env.move_to(a, cells[0][0], cells[0][1])
                 o["moves"].append([a.id] + _pos(a))
-        if "move" in self.mix and m.kind != "plain":
+        if "move" in self.mix and m.kind == "line":
+            a = env.get_random_agent()
+            if a is not None:
+                cells = env.get_neumann_neighbours(int(a[PositionComponent].x), 2, False, tuple)
+                m.random.shuffle(cells)
+                if cells:
+                    env.move_to(a, cells[0][0])
+                o["moves"].append([a.id] + _pos(a))
+        if "move" in self.mix and m.kind not in ("plain", "line"):
             for a in env.shuffle()[:2]:
                 dx, dy = m.random.randint(-2, 2), m.random.randint(-2, 2)
                 env.move(a, dx, dy)
@@ -86,6 +94,8 @@ class Script(System):
                 val = float(env.cells.loc[cid, "res"])
                 env.cells.loc[cid, "res"] = val - 1.0
                 o["near"].append([a.id, "ate", cid, int(round(val * 2))])
+        if KNOB[0]:
+            o["near"].append(["knob", KNOB[0]])
         if hasattr(m, "acc"):
             o["near"].append(["acc", m.acc])
         if getattr(m, "bag", None) is not None:
@@ -166,6 +176,8 @@ class StochModel(Model):
             self.set_environment(GridWorld(self, 5, 4, wrap_env=(kind == "tgrid")))
             if "cells" in mix.split(","):
                 self.environment.add_cell_component("res", RASTER)
+        elif kind == "line":
+            self.set_environment(LineWorld(self, 6))
         elif kind in ("space", "tspace"):
             self.set_environment(SpaceWorld(self, 6.0, 4.0, wrap_env=(kind == "tspace")))
         for i in range(n):
@@ -187,6 +199,8 @@ class StochModel(Model):
             a.add_component(CompA(a, self))
         if self.kind == "plain":
             self.environment.add_agent(a)
+        elif self.kind == "line":
+            self.environment.add_agent(a, r.randint(0, 5))
         elif self.kind in ("grid", "tgrid"):
             self.environment.add_agent(a, r.randint(0, 4), r.randint(0, 3))
         else:
@@ -224,6 +238,14 @@ def perturb(v, salt):
         random.shuffle(lst)
         random.getrandbits(64)
         np.random.randint(0, 10, size=3)
+
+
+def _other_kind(kind):
+    """The other model that is stepped in between lives in another kind of world."""
+    return "line" if kind in ("grid", "tgrid") else "grid"
+
+
+KNOB = [0]          # a module-level setting of the program (model code reads it); programs change it between two batches
 
 
 def _key(prog):
@@ -278,12 +300,12 @@ def run_inline(prog):
             if k not in copies:
                 copies[k] = make_model(c, prog["seed"])
             if other is None:
-                other = StochModel(100003 + salt, c["kind"], c["n"] + 1, c["mix"])
+                other = StochModel(100003 + salt, _other_kind(c["kind"]), c["n"] + 1, c["mix"])
             copies[k].systems["hook"].todo = other.execute
             copies[k].execute()
         elif step[0] == "B":
             if other is None:
-                other = StochModel(100003 + salt, c["kind"], c["n"] + 1, c["mix"])
+                other = StochModel(100003 + salt, _other_kind(c["kind"]), c["n"] + 1, c["mix"])
             other.execute()
     events = []
     for k in sorted(copies):
@@ -314,7 +336,21 @@ def run_worker(prog):
     perturb(len(str(prog["seed"])) % 3, steps)
     res = batch_run(StochKw if steps % 2 else StochModel, {"seed": prog["seed"], "kind": c["kind"], "n": c["n"], "mix": c["mix"]}, collectors="traj",
                     processes=2, max_timesteps=max(steps, 1), repetitions=2)
-    return [{"op": "run", "key": _key(prog), "copy": k + 1, "where": "worker", "out": "ok", "steps": r} for k, r in enumerate(res)]
+    out = [{"op": "run", "key": _key(prog), "copy": k + 1, "where": "worker", "out": "ok", "steps": r} for k, r in enumerate(res)]
+    # a second study in the same session after the program changed one of its settings: first in this process (that run
+    # defines what the setting does), then in worker processes again
+    KNOB[0] = 5
+    try:
+        ref = StochModel(prog["seed"], c["kind"], c["n"], c["mix"])
+        for _ in range(max(steps, 1)):
+            ref.execute()
+        out.append({"op": "run", "key": _key(prog) + "/knob", "copy": 0, "where": "inline", "out": "ok", "steps": list(ref.systems["traj"].records)})
+        res = batch_run(StochModel, {"seed": prog["seed"], "kind": c["kind"], "n": c["n"], "mix": c["mix"]}, collectors="traj",
+                        processes=2, max_timesteps=max(steps, 1), repetitions=1)
+        out += [{"op": "run", "key": _key(prog) + "/knob", "copy": k + 1, "where": "worker", "out": "ok", "steps": r} for k, r in enumerate(res)]
+    finally:
+        KNOB[0] = 0
+    return out
 
 
 def _digest(steps):
